@@ -344,5 +344,28 @@ CHECKS["C15"].update(
          "reader and the model on every generated file.",
     technique="Lean 4 proof (whole-file byte-order independence on top of the C01 whole-file theorems; codec round trips parametric in the byte order) + spec encoder + pairwise oracle")
 
+CHECKS["C03"].update(text=CHECKS["C03"]["text"].replace(
+    "Interleaved segments: file-level iterator, read_raw_data_for_channel and read_data() proved (…_mixed), windows / slices / index on interleaved segments, DAQmx scalers, memmap and the raw_timestamps "
+    "representation change are covered by correspondence and the pairwise agreement oracle on the real code only.",
+    "Files mixing contiguous and interleaved segments, incl. truncated interleaved final chunks (complete rows): window_eq_eager_mixed, slice_eq_eager_mixed, "
+    "index_eq_eager_mixed, channel_data_chunks_eq_eager_mixed, on top of trimStream_coalesce' (trimming a concatenation does not depend on how it is chunked) and "
+    "interleaved_range_agrees (arbitrary bytes). DAQmx scaler data: window_eq_eager_daqmx / daqmx_chunk_component_agrees (C11Lazy; hypotheses checked by evaluation, not "
+    "derived from metadata). memmap and the raw_timestamps representation change are covered by correspondence and the pairwise agreement oracle on the real code only."))
+CHECKS["C10"].update(
+    text="defragment_preserves_content / defragment_same_content (whole files): for every source the model reads (readFile src = .ok r) whose copy is writable (CopyWritable: "
+         "layout exists, sizes fit; DAQmx sources not covered) readFile (defragment src) succeeds and its content equals defragView r — root, then per group the group and "
+         "its channels, properties re-typed exactly as a property read and written again (rereadProp: float32 widened to float64, small ints to Int32), unit-carrying float "
+         "codes 25/26 written as 9/10, values identical; under canonical source paths (SourceCanonical, shown necessary by exNonCanonical_merged) source and copy have the "
+         "same objects, values and property values up to that re-typing and ordering (sameContentUpTo). read_invariants proves for EVERY successful read that paths are "
+         "distinct and only typed channels hold values. Structure: defragment_eq, defragSegs_structure, each_channel_once, writer_never_rejects, defrag_valid (strict parser "
+         "accepts the copy); float widening exact (f32ToF64_value, injective). The model equals the real TdmsWriter.defragment byte for byte on generated sources; the real "
+         "source-vs-copy oracle runs on every case.",
+    technique="Lean 4 proof (whole-file content preservation composing the reader, writer and C07 write-read theorems) + byte-equality correspondence + content oracle")
+CHECKS["C07"].update(text=CHECKS["C07"]["text"].replace("Bridge: the writer's bytes ARE a spec encoding",
+    "write_then_read_checked: for the writer with the in-session type guard (writeProgramChecked = what the repaired TdmsWriter does) only cross-session consistency "
+    "remains as a hypothesis, none for a single session; typesConsistent_iff characterises the guard exactly; exAcross_finding is the kernel-checked witness of the known "
+    "finding. Bridge: the writer's bytes ARE a spec encoding"))
+CHECKS["C11"].update(text=CHECKS["C11"]["text"] + " Lazy windows of scaler data = slices of the eager scaler data: window_eq_eager_daqmx (C11Lazy).")
+
 NOTES = ("Properties move from not_applicable to checks as their model, correspondence and theorems are built; a check is claimed at `proof` only when its "
          "headline theorems are registered in lean/obligations.json. See DESIGN.md.")
